@@ -151,7 +151,8 @@ class MatVal:
         a, b = a.reshape(-1).double(), b.reshape(-1).double()
         if a.numel() == 0:
             return True
-        scale = max(float(a.abs().max()), float(b.abs().max()), 1e-30)
+        # (a value that is a sum carries the size of its summands: cancellation must not tighten the tolerance)
+        scale = max(float(a.abs().max()), float(b.abs().max()), 1e-30, getattr(self, 'scale', 0.0), getattr(o, 'scale', 0.0))
         return bool(((a - b).abs().max() / scale) <= tol) or bool(torch.equal(a, b))
 
     def __ne__(self, o):
@@ -385,14 +386,18 @@ def _allsum_rt(v, group):
     import torch
     import torch.distributed as dist
     t = _m(v).detach().clone().double()
+    mag = t.abs().clone()
     if dist.is_available() and dist.is_initialized() and (group is None or dist.get_rank() in _members(group)):
         if len(list(_members(group))) > 1:
             H.in_oracle = True
             try:
                 dist.all_reduce(t, group=group)
+                dist.all_reduce(mag, group=group)
             finally:
                 H.in_oracle = False
-    return MatVal(t)
+    out = MatVal(t)
+    out.scale = float(mag.max()) if mag.numel() else 0.0
+    return out
 
 
 FUNCS['allsum'] = _allsum_rt
@@ -438,7 +443,9 @@ def _bucketed_requests_ok(tdc):
         if tuple(got.shape) != tuple(t.shape) or got.dtype != t.dtype:
             H.last_detail = f'request of shape {tuple(t.shape)} {t.dtype} resolved to {tuple(got.shape)} {got.dtype}'
             return False
-        if MatVal(got) != MatVal(s.to(torch.float64)):
+        ref = MatVal(s.to(torch.float64))
+        ref.scale = float(_allsum_rt(MatVal(x.abs()), group).t.max()) * (1.0 / size if average else 1.0) if x.numel() else 0.0
+        if MatVal(got) != ref:
             H.last_detail = f'request (average={average}, symmetric={symmetric}, group of {size}) resolved to a different value'
             return False
     return True
